@@ -116,15 +116,17 @@ function runJob (job) {
             const ctx = vm.createContext({ _ddiast: new Proxy({}, { get: () => (x) => x }) })
             vm.runInContext(text, ctx, { filename: step.file })
             try {
-              vm.runInContext('boom("x", "y")', ctx, { filename: '/harness/caller.js' })
+              // (a function handed back is called from the caller's file)
+              vm.runInContext('var r = boom("x", "y"); if (typeof r === "function") r()', ctx, { filename: '/harness/caller.js' })
               got = [{ none: true }]
             } catch (e) {
               const s = e.stack
               // handler path: every structured frame that has a file name (eval frames have none);
               // string path: every frame of the formatted stack, eval frames by their origin
               if (mode === 'handler') {
+                // (a stack whose only link to the file is an eval origin has no such frame: nothing to report here)
                 got = (structured || []).filter((f) => typeof f.path === 'string' && f.path.startsWith('/w/'))
-                if (!got.length) got = [{ raw: String(s) }]
+                if (!structured) got = [{ raw: String(s) }]
               } else {
                 got = framesOf(s)
               }
